@@ -30,10 +30,13 @@ import (
 	"os/exec"
 	"path/filepath"
 	"regexp"
+	"runtime"
+	"runtime/debug"
 	"sort"
 	"strconv"
 	"strings"
 	"sync"
+	"time"
 
 	"evylang.dev/evy/pkg/cli/svg"
 )
@@ -302,7 +305,7 @@ func sxNodes(x SX) ([]*xnode, error) {
 }
 
 type c19Model struct {
-	Hang                            bool
+	Hang, Rejected                  bool
 	Tree, TreeFixed                 *xnode
 	Flat, SpecAsIs, Spec, FlatFixed []*xnode
 	Guard                           bool
@@ -310,9 +313,9 @@ type c19Model struct {
 
 const c19Fuel = 3000
 
-// c19UseFixed selects the model the implementation is compared with: the code
-// as it is (default) or the `_fixed` model (after the proposed fixes have been
-// applied to the tree: set C19_MODEL=fixed, or flip this default).
+// c19UseFixed selects the model the implementation is compared with: the model
+// in force (`cur` in Svg.v = /repo HEAD, default) or the model with every
+// proposed fix (`all`; after the remaining diffs have been applied: C19_MODEL=fixed).
 func c19UseFixed() bool { return os.Getenv("C19_MODEL") == "fixed" }
 
 func c19AskModel(model *Model, cmds []SX) (*c19Model, error) {
@@ -327,10 +330,10 @@ func c19AskModel(model *Model, cmds []SX) (*c19Model, error) {
 	if x.Kind == "lst" && len(x.L) == 1 && x.L[0].S == "hang" {
 		return &c19Model{Hang: true}, nil
 	}
-	if x.Kind != "lst" || len(x.L) != 8 || x.L[0].S != "ok" {
+	if x.Kind != "lst" || len(x.L) != 9 || x.L[0].S != "ok" {
 		return nil, fmt.Errorf("model output: %.200s", ans)
 	}
-	m := &c19Model{Guard: x.L[5].S == "true"}
+	m := &c19Model{Guard: x.L[5].S == "true", Rejected: x.L[8].S == "true"}
 	if m.Tree, err = sxNode(x.L[1]); err != nil {
 		return nil, err
 	}
@@ -425,6 +428,7 @@ func applyCmd(rt *svg.GraphicsPlatform, c SX) {
 	}
 }
 
+// gridnFunc (since 292a02f) rejects such a unit with ErrBadArguments; before, the loop never ended.
 func gridUnitHangs(u float64) bool { return u <= 0 } // NaN: false (the loop ends after one round)
 
 func cmdsHang(cmds []SX) bool {
@@ -722,10 +726,6 @@ func c19Key(tag, attr string, implShape *xnode, guard bool) string {
 		return "font-baseline-not-mapped"
 	case tag == "text" && attr == "font-family":
 		return "default-font-family-not-written"
-	case !guard && tag == "rect" && implShape.Attrs["width"] == "s:100%" && (attr == "fill" || attr == "stroke"):
-		return "lone-clear-fill-overwritten"
-	case !guard && tag == "line" && attr == "stroke":
-		return "lone-grid-stroke-overwritten"
 	case !guard && tag == "text" && attr == "fill":
 		return "text-painted-with-stroke-colour"
 	}
@@ -768,8 +768,8 @@ func diffShapes(impl, spec []*xnode, guard bool) map[string]string {
 
 type c19Input struct {
 	Case    string `json:"case"`              // S-expression list of commands
-	Mode    string `json:"mode"`              // api | binary | hang
-	Program string `json:"program,omitempty"` // evy source (binary / hang)
+	Mode    string `json:"mode"`              // api | binary | gridn-rejected
+	Program string `json:"program,omitempty"` // evy source (binary / gridn-rejected)
 }
 
 func cmdsSX(h []gcmd) []SX {
@@ -833,7 +833,7 @@ func c19CheckDoc(doc []byte, cmds []SX, m *c19Model, in c19Input, r *Result) {
 	}
 	// the proved theorem, re-checked on this run: guard -> flat = spec_asis; fixed model: flat_fixed = spec
 	if m.Guard && canonList(m.Flat) != canonList(m.SpecAsIs) {
-		viol("correspondence", "model-theorem-asis", "extracted model contradicts C19_svg_shows_what_was_drawn_asis", nil)
+		viol("correspondence", "model-theorem-asis", "extracted model contradicts C19_svg_shows_what_was_drawn", nil)
 	}
 	if canonList(m.FlatFixed) != canonList(m.Spec) {
 		viol("correspondence", "model-theorem-fixed", "extracted model contradicts C19_svg_shows_what_was_drawn_fixed", nil)
@@ -841,11 +841,11 @@ func c19CheckDoc(doc []byte, cmds []SX, m *c19Model, in c19Input, r *Result) {
 	if m.Guard {
 		r.Dist("guard:holds")
 		if canonList(flat) != canonList(m.SpecAsIs) {
-			viol("property", "svg-differs-from-asis-spec", "guard holds but the flattened document differs from the specification with the four recorded deviations",
+			viol("property", "svg-differs-from-asis-spec", "guard holds but the flattened document differs from the specification of the model in force (four remaining deviations)",
 				map[string]any{"impl_flat": canonList(flat), "spec_asis": canonList(m.SpecAsIs)})
 		}
 	} else {
-		r.Dist("guard:fails(lone element overwritten)")
+		r.Dist("guard:fails(lone text, stroke unset)")
 	}
 	// the property itself
 	keys := diffShapes(flat, m.Spec, m.Guard)
@@ -927,6 +927,7 @@ func runBinary(prog string, timeoutS int) (c19BinResult, error) {
 	}
 	sh := fmt.Sprintf("ulimit -v 3000000; exec timeout -s KILL %d %q run --skip-sleep --svg-out %q %q", timeoutS, bin, out, src)
 	cmd := exec.Command("bash", "-c", sh)
+	cmd.Env = append(os.Environ(), "GOMAXPROCS=2")
 	var stderr bytes.Buffer
 	cmd.Stderr = &stderr
 	cmd.Stdout = io.Discard
@@ -968,18 +969,19 @@ func c19CaseSX(cmds []SX, in c19Input, model *Model, r *Result) {
 		r.Violate(Violation{Kind: "correspondence", Key: "model-crash", Detail: err.Error(), Input: in})
 		return
 	}
-	hangExpected := cmdsHang(cmds)
-	if os.Getenv("C19_DEBUG") != "" && in.Mode == "hang" {
-		fmt.Fprintf(os.Stderr, "hang case: expected=%v model=%v %s\n", hangExpected, m.Hang, in.Case)
+	rejectExpected := cmdsHang(cmds) // a gridn unit <= 0: BadArguments before the platform is called
+	if m.Hang {
+		r.Violate(Violation{Kind: "correspondence", Key: "model-out-of-fuel", Detail: "the model's gridn loop did not end within the fuel", Input: in})
+		return
 	}
-	if m.Hang != hangExpected {
-		r.Violate(Violation{Kind: "correspondence", Key: "model-hang-class", Detail: fmt.Sprintf("model hang=%v, history has a gridn unit <= 0: %v", m.Hang, hangExpected), Input: in})
+	if m.Rejected != rejectExpected {
+		r.Violate(Violation{Kind: "correspondence", Key: "model-rejected-class", Detail: fmt.Sprintf("model rejected=%v, history has a gridn unit <= 0: %v", m.Rejected, rejectExpected), Input: in})
 		return
 	}
 	switch in.Mode {
 	case "api":
-		if hangExpected {
-			return // never run in-process
+		if rejectExpected {
+			return // the platform API has no check: never run in-process (the loop would not end)
 		}
 		doc, p := c19RunAPI(cmds)
 		if p != "" {
@@ -990,34 +992,31 @@ func c19CaseSX(cmds []SX, in c19Input, model *Model, r *Result) {
 		if len(r.Samples) < 2 {
 			r.Sample(map[string]any{"mode": "api", "case": in.Case, "svg": string(doc)})
 		}
-	case "binary", "hang":
+	case "binary", "gridn-rejected":
 		to := 10
-		if hangExpected {
-			to = 4
+		if rejectExpected {
+			to = 5
 		}
 		res, err := runBinary(in.Program, to)
 		if err != nil {
 			r.Violate(Violation{Kind: "correspondence", Key: "evy-binary", Detail: err.Error(), Input: in})
 			return
 		}
-		if hangExpected {
-			if res.timedOut || res.exit != 0 || len(res.doc) == 0 {
-				r.Dist("termination:gridn-hangs")
-				r.Violate(Violation{Kind: "property", Key: "gridn-nonpositive-unit-hangs",
-					Detail: fmt.Sprintf("evy run --svg-out did not terminate normally (exit %d, killed/timeout=%v, %d bytes of SVG): gridn with unit <= 0 never advances its loop variable and allocates without bound",
-						res.exit, res.timedOut, len(res.doc)),
-					Input: in, Impl: map[string]any{"stderr_tail": c19Tail(res.stderr, 300)}})
-			} else {
-				r.Violate(Violation{Kind: "correspondence", Key: "model-hang-class", Detail: "model says the history hangs, the binary terminated", Input: in})
-			}
-			return
-		}
 		if res.timedOut {
-			r.Violate(Violation{Kind: "property", Key: "evy-run-timeout", Detail: "evy run --svg-out did not terminate within 10 s", Input: in})
+			key, what := "evy-run-timeout", "evy run --svg-out did not terminate"
+			if rejectExpected {
+				key, what = "gridn-nonpositive-unit-hangs", "evy run --svg-out did not terminate: gridn with unit <= 0 reached the platform loop, which never advances"
+			}
+			r.Violate(Violation{Kind: "property", Key: key, Detail: what, Input: in, Impl: map[string]any{"stderr_tail": c19Tail(res.stderr, 300)}})
 			return
 		}
-		if res.exit != 0 {
-			r.Violate(Violation{Kind: "correspondence", Key: "evy-run-error", Detail: fmt.Sprintf("exit %d: %s", res.exit, c19Tail(res.stderr, 300)), Input: in})
+		wantExit := 0
+		if rejectExpected {
+			wantExit = 1 // panic: bad arguments; main.go still writes the SVG drawn so far
+			r.Dist("termination:gridn-rejected")
+		}
+		if res.exit != wantExit {
+			r.Violate(Violation{Kind: "correspondence", Key: "evy-run-exit", Detail: fmt.Sprintf("exit %d, want %d: %s", res.exit, wantExit, c19Tail(res.stderr, 300)), Input: in})
 			return
 		}
 		c19CheckDoc(res.doc, cmds, m, in, r)
@@ -1046,6 +1045,8 @@ func c19Rejected(model *Model, r *Result) {
 		{"font {baseline:\"up\" size:1}", "unknown baseline"},
 		{"font {colour:\"up\" size:1}", "unknown font property"},
 		{"clear \"a\" \"b\"", "clear with 2 arguments"},
+		{"gridn 0 \"red\"", "gridn unit 0"},
+		{"gridn (0-5) \"red\"", "gridn negative unit"},
 	}
 	prefix := []gcmd{{Lst(Sym("color"), Str("red")), `color "red"`}, {Lst(Sym("circle"), Float(5)), "circle 5"}}
 	for _, c := range cases {
@@ -1084,6 +1085,10 @@ var c19Corpus = []string{
 }
 
 func runC19(cfg Config, r *Result) {
+	// the run is a sequential ask/answer loop: a small GOMAXPROCS and a lazier GC
+	// keep it fast when the machine is oversubscribed
+	defer runtime.GOMAXPROCS(runtime.GOMAXPROCS(4))
+	defer debug.SetGCPercent(debug.SetGCPercent(400))
 	model, err := StartModel("svg")
 	if err != nil {
 		r.Violate(Violation{Kind: "correspondence", Key: "model-start", Detail: err.Error()})
@@ -1093,7 +1098,7 @@ func runC19(cfg Config, r *Result) {
 	r.Rule = "random histories of graphics calls (move/line/rect/circle/clear/poly/ellipse/text/gridn/grid + width/color/colour/stroke/fill/dash/linecap/font; " +
 		"arguments from nice and degenerate pools: 0, -0, negative, NaN (0/0), +-Inf, 1e30, 1e-30; empty and markup-like strings) " +
 		"run on svg.GraphicsPlatform in-process (mode api), as evy programs through the built binary `evy run --svg-out` (mode binary), " +
-		"and with a gridn unit <= 0 through the binary under timeout/ulimit (mode hang); non-trivial = at least 2 drawing calls with a style change after a drawing call; " +
+		"and with a gridn unit <= 0 through the binary under timeout/ulimit (mode gridn-rejected: exit 1, document of the calls before it); non-trivial = at least 2 drawing calls with a style change after a drawing call; " +
 		"distinct = distinct (mode, command list)"
 	if cfg.Replay != "" {
 		b, err := os.ReadFile(cfg.Replay)
@@ -1131,7 +1136,8 @@ func runC19(cfg Config, r *Result) {
 		c19CaseSX(x.L, c19Input{Case: c, Mode: "api"}, model, r)
 	}
 	maxLen := cfg.N(15, 60)
-	nAPI := cfg.N(800, 8000)
+	t0 := time.Now()
+	nAPI := cfg.N(400, 8000)
 	for i := 0; i < nAPI; i++ {
 		n := 1 + cfg.Rng.Intn(maxLen)
 		if i%10 == 0 {
@@ -1139,21 +1145,25 @@ func runC19(cfg Config, r *Result) {
 		}
 		c19Case(genHistory(cfg.Rng, n, true, false), "api", model, r)
 	}
+	tAPI := time.Since(t0)
+	t0 = time.Now()
 	if _, err := evyBinary(); err != nil {
 		r.Violate(Violation{Kind: "correspondence", Key: "evy-binary", Detail: err.Error()})
 		return
 	}
-	nBin := cfg.N(40, 300)
+	tBuild := time.Since(t0)
+	t0 = time.Now()
+	defer func() {
+		r.Note("wall: api cases %.1fs, go build evy %.1fs, binary cases %.1fs", tAPI.Seconds(), tBuild.Seconds(), time.Since(t0).Seconds())
+	}()
+	nBin := cfg.N(24, 300)
 	for i := 0; i < nBin; i++ {
 		c19Case(genHistory(cfg.Rng, 1+cfg.Rng.Intn(maxLen), false, false), "binary", model, r)
 	}
 	c19Rejected(model, r)
-	nHang := cfg.N(3, 8)
-	if c19UseFixed() {
-		nHang = 0 // with the gridn fix the call is rejected; covered by the rejected-call cases
-	}
+	nHang := cfg.N(4, 40)
 	for i := 0; i < nHang; i++ {
-		c19Case(genHistory(cfg.Rng, 1+cfg.Rng.Intn(5), false, true), "hang", model, r)
+		c19Case(genHistory(cfg.Rng, 1+cfg.Rng.Intn(6), false, true), "gridn-rejected", model, r)
 	}
 }
 
